@@ -559,8 +559,14 @@ get_trait_flag(trait_object *trait, unsigned int mask)
 static int
 set_trait_flag(trait_object *trait, unsigned int mask, PyObject *value)
 {
-    int flag = PyObject_IsTrue(value);
+    int flag;
 
+    if (value == NULL) {
+        PyErr_SetString(PyExc_TypeError, "The attribute cannot be deleted.");
+        return -1;
+    }
+
+    flag = PyObject_IsTrue(value);
     if (flag == -1) {
         return -1;
     }
@@ -1443,6 +1449,11 @@ get_has_traits_dict(has_traits_object *obj, void *closure)
 static int
 set_has_traits_dict(has_traits_object *obj, PyObject *value, void *closure)
 {
+    if (value == NULL) {
+        PyErr_SetString(PyExc_TypeError, "The attribute cannot be deleted.");
+        return -1;
+    }
+
     if (!PyDict_Check(value)) {
         return dictionary_error();
     }
@@ -5069,6 +5080,11 @@ get_trait_dict(trait_object *trait, void *closure)
 static int
 set_trait_dict(trait_object *trait, PyObject *value, void *closure)
 {
+    if (value == NULL) {
+        PyErr_SetString(PyExc_TypeError, "The attribute cannot be deleted.");
+        return -1;
+    }
+
     if (!PyDict_Check(value)) {
         return dictionary_error();
     }
